@@ -15,6 +15,19 @@ pub fn is_tag(node: &Node, tag_name: &str) -> bool {
         && name.namespace().map(|ns| ns == E57_NAMESPACE).unwrap_or(true)
 }
 
+/// The text of an element: all of its text, also if elements of extensions,
+/// comments or processing instructions stand before or between the pieces.
+/// `None` if the element contains no text at all.
+pub fn text_of(node: &Node) -> Option<String> {
+    let mut pieces = node.children().filter_map(|n| if n.is_text() { n.text() } else { None });
+    let first = pieces.next()?;
+    let mut text = first.to_string();
+    for piece in pieces {
+        text.push_str(piece);
+    }
+    Some(text)
+}
+
 pub fn opt_string(parent_node: &Node, tag_name: &str) -> Result<Option<String>> {
     if let Some(tag) = parent_node.children().find(|n| crate::xml::is_tag(n, tag_name)) {
         let expected_type = "String";
@@ -27,8 +40,8 @@ pub fn opt_string(parent_node: &Node, tag_name: &str) -> Result<Option<String>> 
         } else {
             Error::invalid(format!("XML tag '{tag_name}' has no 'type' attribute"))?
         }
-        let text = tag.text().unwrap_or("");
-        Ok(Some(text.to_string()))
+        let text = text_of(&tag).unwrap_or_default();
+        Ok(Some(text))
     } else {
         Ok(None)
     }
@@ -54,7 +67,7 @@ fn opt_num<T: FromStr + Sync + Send>(
         } else {
             Error::invalid(format!("XML tag '{tag_name}' has no 'type' attribute"))?
         }
-        let text = tag.text().unwrap_or("0");
+        let text = text_of(&tag).unwrap_or_else(|| "0".to_string());
         if let Ok(parsed) = text.parse::<T>() {
             Ok(Some(parsed))
         } else {
